@@ -92,6 +92,53 @@ func dice(rng *rng.RNG) func(int) int {
 	}
 }
 
+// maxRandomBound is the largest magnitude accepted for the bounds of random integers:
+// beyond it numbers no longer represent every integer, and ranges could overflow.
+const maxRandomBound = 1 << 53
+
+// toRandomBound converts a number to an integer bound (truncating it like other integer arguments),
+// refusing values that are not a number or too big.
+func toRandomBound(f float64) (int, error) {
+	if math.IsNaN(f) || math.Abs(f) > maxRandomBound {
+		return 0, fmt.Errorf("%v is out of range", f)
+	}
+	return int(f), nil
+}
+
+// checkedRandomRange wraps randomRange so that an empty or out-of-range interval yields an error.
+func checkedRandomRange(rng *rng.RNG) func(float64, float64) (int, error) {
+	randomRange := randomRange(rng)
+	return func(lowerBound, upperBound float64) (int, error) {
+		lower, err := toRandomBound(lowerBound)
+		if err != nil {
+			return 0, fmt.Errorf("invalid lower bound: %w", err)
+		}
+		upper, err := toRandomBound(upperBound)
+		if err != nil {
+			return 0, fmt.Errorf("invalid upper bound: %w", err)
+		}
+		if upper < lower {
+			return 0, fmt.Errorf("upper bound %d is lower than lower bound %d", upper, lower)
+		}
+		return randomRange(lower, upper), nil
+	}
+}
+
+// checkedDice wraps dice so that a number of sides lower than one or out of range yields an error.
+func checkedDice(rng *rng.RNG) func(float64) (int, error) {
+	dice := dice(rng)
+	return func(sides float64) (int, error) {
+		upper, err := toRandomBound(sides)
+		if err != nil {
+			return 0, fmt.Errorf("invalid number of sides: %w", err)
+		}
+		if upper < 1 {
+			return 0, fmt.Errorf("a dice needs at least one side, got %d", upper)
+		}
+		return dice(upper), nil
+	}
+}
+
 // round rounds f to the nearest integer
 func round(f float64) float64 {
 	return math.Round(f)
